@@ -81,7 +81,7 @@ FAMS_S2 = ["sl-npa", "sl-np", "vj-mgga", "vj-gga", "sdmx", "vk-mgga", "vi-gga"]
 FAMS_NOS2 = ["sl-nst", "sl-ns", "vj-nst"]
 FAMS_4 = ["vj-mgga", "vj-gga", "vk-mgga", "sdmx"]  # nfeat >= 4 (nlda_x_damp reads feature 3)
 EV_FLAT = ["rbf", "kernel", "antisym", "linear", "subset", "rbf1", "kernel-agpr", "kernel-subset",
-           "rbf+linear", "kernel+rbf+linear", "antisym+rbf"]
+           "rbf+linear", "kernel+rbf+linear", "antisym+rbf", "subset-strict", "subset-list", "subset-strict+linear"]
 EV_POL = ["spinrbf", "spinrbf+spinrbf", "spinrbf1"]
 
 
@@ -351,6 +351,14 @@ def _evaluator(kind, n1, rng, feature_list=None, nctrl=10, amp=0.5):
     if kind == "subset":  # SubsetRBF over all features, both slice spellings
         sl = slice(0, n1) if rng.random() < 0.5 else slice(0, None)
         return xe.RBFEvaluator(DiffConstantKernel(cval) * SubsetRBF(sl, ls), ctrl, alpha)
+    if kind in ("subset-strict", "subset-list") and n1 >= 2:
+        # strict subset of the transformed features, control points over ALL features (as for KernelEvaluator);
+        # inside a MappedDFTKernel the evaluator receives the full-width derivative buffer
+        idx = slice(1, n1) if kind == "subset-strict" else sorted(rng.choice(n1, size=max(1, n1 - 1), replace=False).tolist())
+        sel = np.arange(n1)[idx] if isinstance(idx, slice) else np.asarray(idx)
+        return xe.RBFEvaluator(DiffConstantKernel(cval) * SubsetRBF(idx, ls[sel]), ctrl, alpha)
+    if kind in ("subset-strict", "subset-list"):
+        return gen.rand_evaluator("rbf", n1, rng, nctrl=nctrl, amp=amp)
     if kind == "antisym":
         kern = DiffConstantKernel(cval) * DiffRBF(ls[: n1 - 1])
         return xe.AntisymRBFEvaluator(kern, ctrl, alpha)
@@ -675,6 +683,10 @@ def _run_fd_sub(rec, sub, rng, n=20):
     _check_fd(rec, sub, mdl, stats)
     rec.check("locality", _locality(mdl, mdl.xc, X, rt, units, None, rng, scale, res), 1e-14,
               mechanism=_mech(sub, "sample-crosstalk"))
+    # a repeated call on the same objects (after all the FD evaluations) returns the same values and derivatives
+    rr = _call(mdl.xc, cls, X, rt, None)
+    rec.check("repeat_call", _cmp_exact(rr[:2], (res, dres), (None, units), scale), TOL_EXACT,
+              mechanism=_mech(sub, "repeat-call-differs"))
     # rhocut = 0 given explicitly equals the default call
     r0 = _call(mdl.xc, cls, X, rt, 0.0)
     rec.check("cut_rc0_is_default", _cmp_exact(r0[:2], (res, dres), (None, units), scale), TOL_EXACT,
